@@ -130,7 +130,9 @@ def DEPTH : Nat := 100000
 
 def runC16 (fields : List String) (obs : String) : String × String × String :=
   let bad := ("bad-case", "bad-case", "-")
-  match fields with
+  -- a trailing `form=…` field says how the matched value or the arguments are written (in place or through
+  -- variables): the result does not depend on it
+  match fields.filter (fun f => !f.startsWith "form=") with
   | ["match", variants, v, arms] =>
     (match pV (toks v), (arms.splitOn ";;").mapM pArm with
      | some (src, []), some arms =>
